@@ -340,6 +340,7 @@ pub enum Line {
     /// a constant (the model sees `val k`), it records nothing
     OtherFile(String),
     OtherDir(String),
+    OtherLoad(String),
     Fail,
     Panic,
 }
@@ -368,6 +369,7 @@ impl Line {
             Line::Catch(l) => format!("catch {}", l.text()),
             Line::OtherFile(id) => format!("orf {} x", q(id)),
             Line::OtherDir(id) => format!("ord {}", q(id)),
+            Line::OtherLoad(id) => format!("oload {}", q(id)),
             Line::Fail => "fail".into(),
             Line::Panic => "panic".into(),
         }
@@ -387,6 +389,7 @@ impl Line {
             Line::Catch(l) => format!("(LCatch {})", l.coq()),
             Line::OtherFile(id) => format!("(LVal {})", zlit(other_file_len(id).unwrap() as i64)),
             Line::OtherDir(id) => format!("(LVal {})", zlit(other_dir_count(id).unwrap() as i64)),
+            Line::OtherLoad(id) => format!("(LVal {})", zlit(other_asset_value(id).unwrap())),
             Line::Fail => "LFail".into(),
             Line::Panic => "LPanic".into(),
         }
@@ -629,9 +632,13 @@ fn drain_pass_log() -> String {
 }
 
 fn wait_counter(c: &std::sync::atomic::AtomicUsize, target: usize) -> bool {
+    wait_counter_for(c, target, 10_000)
+}
+
+fn wait_counter_for(c: &std::sync::atomic::AtomicUsize, target: usize, ms: u64) -> bool {
     let t0 = std::time::Instant::now();
     while c.load(std::sync::atomic::Ordering::SeqCst) < target {
-        if t0.elapsed() > std::time::Duration::from_secs(10) {
+        if t0.elapsed() > std::time::Duration::from_millis(ms) {
             return false;
         }
         std::thread::yield_now();
@@ -768,9 +775,13 @@ pub fn apply<F: Front>(fe: &mut F, mem: &Mem, op: &Op, ctx: &mut Ctx) -> String 
             let _ = drain_pass_log();
             let target = assets_manager::verif_hooks::PASSES_RUN.load(std::sync::atomic::Ordering::SeqCst) + 1;
             fe.enhance();
-            if !wait_counter(&assets_manager::verif_hooks::PASSES_RUN, target) {
-                eprintln!("infrastructure: switch to 'static mode not finished within 10 s");
-                std::process::exit(3);
+            let patience = if ctx.busy_violations.is_empty() { 10_000 } else { 100 };
+            if !wait_counter_for(&assets_manager::verif_hooks::PASSES_RUN, target, patience) {
+                // enhance_hot_reloading applies what is pending: the reloader runs a pass when it
+                // takes the 'static reference (also when nothing is pending)
+                if ctx.busy_violations.len() < 5 {
+                    ctx.busy_violations.push("enhance_hot_reloading: the reloader ran no pass within 10 s of the switch to 'static mode (changes notified before the switch stay unapplied)".to_string());
+                }
             }
             ctx.last_order = drain_pass_log();
             "(OutBool true)".to_string()
@@ -868,7 +879,9 @@ fn gen_line(rng: &mut Rng, node_idx: usize, depth: u32, threads_ok: bool, spicy:
     let r = rng.below(if spicy { 34 } else { 29 });
     match r {
         0 => {
-            if rng.chance(2, 3) {
+            if rng.chance(1, 3) {
+                Line::OtherLoad(rng.pick(OTHER_FILES).to_string())
+            } else if rng.chance(1, 2) {
                 Line::OtherFile(rng.pick(OTHER_FILES).to_string())
             } else {
                 Line::OtherDir(rng.pick(&["", "d", "d.e", "q"]).to_string())
@@ -1268,6 +1281,9 @@ pub enum FeKind {
     /// cache without reloader, driven with the operations of a hot one (notifications, hot_reload,
     /// reload ids, watchers), which must all find nothing to do -- in any history
     NoHotOnHot,
+    /// AssetCache::with_source on a source whose configure_hot_reloading fails (after keeping the
+    /// sender): a cache without reloader for the model, driven like a hot one
+    RefusedHot,
 }
 
 impl FeKind {
@@ -1301,8 +1317,13 @@ pub fn run_case(kind: FeKind, ops: &[Op], ctx: &mut Ctx) -> Vec<(String, String)
     reset_tokens();
     let _ = take_trace();
     let _ = take_ledger();
-    let mem = Mem::new(kind.hot() || kind == FeKind::NoHotOnHot);
+    let mem = if kind == FeKind::RefusedHot { Mem::new_refusing() } else { Mem::new(kind.hot() || kind == FeKind::NoHotOnHot) };
     let res = match kind {
+        FeKind::RefusedHot => {
+            let mut c = Hot(AssetCache::with_source(mem.clone()));
+            let p = &c.0 as *const _ as usize;
+            drive(&mut c, p, &mem, ops, ctx)
+        }
         FeKind::NoHotOnHot => {
             let mut c = Hot(AssetCache::without_hot_reloading(mem.clone()));
             let p = &c.0 as *const _ as usize;
@@ -1565,6 +1586,11 @@ pub fn run(a: &Args) {
         .map(|c| c.group("sys_cases", "bool * list op * list (out * list ev)"))
         .collect();
     let mut ctx = Ctx::default();
+    // the second cache exists (and has loaded its assets) before the first history starts
+    let _ = other_cache();
+    reset_tokens();
+    let _ = take_ledger();
+    let _ = take_trace();
     let only: Option<usize> = a.get("only").and_then(|x| x.parse().ok());
     if only.is_none() {
         key_sweep(if a.thorough() { 40000 } else { 4000 }, &mut ctx);
@@ -1615,6 +1641,7 @@ pub fn run(a: &Args) {
                 FeKind::HotLeaked,
                 FeKind::HotLeaked,
                 FeKind::NoHotOnHot,
+                FeKind::RefusedHot,
             ],
         };
         let kind = *rng.pick(kinds);
@@ -1622,7 +1649,7 @@ pub fn run(a: &Args) {
             threads_ok: !matches!(kind, FeKind::Local | FeKind::LocalAny),
             spicy: rng.chance(1, 3),
             mutable: kind != FeKind::HotLeaked,
-            hot: kind.hot() || kind == FeKind::NoHotOnHot,
+            hot: kind.hot() || kind == FeKind::NoHotOnHot || kind == FeKind::RefusedHot,
             leaked: kind == FeKind::HotLeaked,
         };
         let maxlen = if rng.chance(1, 5) { 60 } else { 25 };
